@@ -267,6 +267,12 @@ fn one_case(ctx: &Ctx, case: u64, l: &mut Local) {
         for (pre, post) in [(" ", ""), ("", " "), ("\n", ""), ("", "\r\n"), ("\t", "\t"), ("", "\u{a0}"), ("\u{feff}", ""), ("", "\u{200b}"), ("", "\u{0}")] {
             variants.push(("wrap", format!("{pre}{d}{post}")));
         }
+        // the same bytes in the standard base64 alphabet / percent-escaped (a lenient decoder reads
+        // them as the genuine disclosure; the digest of THIS string is not in the payload)
+        if d.contains('-') || d.contains('_') {
+            variants.push(("wrap", d.replace('-', "+").replace('_', "/")));
+        }
+        variants.push(("wrap", format!("%{:02X}{}", d.as_bytes()[0], &d[1..])));
         variants.push(("truncate", d[..d.len() - 1].to_string()));
         if d.len() > 8 {
             variants.push(("truncate", d[..d.len() - 4].to_string()));
